@@ -24,7 +24,7 @@ ASSUMPTIONS = [
     "the harness's VDI writer and content model are a faithful reading of the VDI v1.1 layout",
     "held means: held on the executions listed, not verified for all inputs",
 ]
-MINIMA = {"quick": {"reads_compared": 2000, "multi_block_requests": 200, "zero_blocks_over_parent_data": 10}, "thorough": {"reads_compared": 20000}}
+MINIMA = {"quick": {"reads_compared": 2000, "multi_block_requests": 200, "zero_blocks_over_parent_data": 10}, "thorough": {"reads_compared": 300000}}
 MECH = "vdi.read"
 
 
@@ -36,7 +36,7 @@ def plan(tier: str, seed: int) -> list[dict]:
             for bs in ((512, 1024) if tier == "quick" else (512, 1024, 2048)):
                 cases.append({"k": "perm", "bs": bs, "n": n, "perm": list(perm)})
     rng = rng_for(seed, ID, "plan")
-    nrand = 140 if tier == "quick" else 3000
+    nrand = 140 if tier == "quick" else 15000
     sizes = [512, 1024, 4096, 8192, 16384, 65536, 1 << 20] + ([2 << 20, 4 << 20] if tier == "thorough" else [])
     for i in range(nrand):
         bs = rng.choice(sizes)
@@ -48,7 +48,7 @@ def plan(tier: str, seed: int) -> list[dict]:
                 "weight": 1 + (bs * n >> 20),
             }
         )
-    for i in range(24 if tier == "quick" else 400):
+    for i in range(24 if tier == "quick" else 3000):
         bs = rng.choice([512, 1024, 4096, 65536])
         cases.append({"k": "parent", "bs": bs, "n": rng.randrange(2, 24), "i": i, "placement": "shuffle"})
     return cases
